@@ -20,6 +20,7 @@ RULE = ('Reachable removal-enabled states (histories of 1-12 calls; reciprocal a
         'non-trivial = (directed) a reciprocal pair whose two timelines differ or (undirected) a multi-run pair, plus an '
         'isolated node or a nested attribute value.')
 ASSUMPTIONS = ['e > t in the generated histories']
+TECHNIQUE = 'model-based PBT for presence; mutation-based isolation test; invariant checks on the converted graph'
 BUDGET = {'quick': {'cases': 8000, 'seconds': 45}, 'thorough': {'cases': 120000, 'seconds': 540}}
 KINDS = ['add', 'add', 'add', 'add', 'add', 'add_from', 'path', 'cycle', 'node', 'node', 'nodes_from', 'recip']
 
